@@ -21,8 +21,8 @@ ID = "C28"
 LEVEL = "model_checking"
 EXHAUSTIVE = True
 CASE_TIMEOUT = 3000
-RULE = ("programs = every statement sequence (<=3 top-level statements, bodies <=2, "
-        "loop depth <=2) over {assignment, DO loop, IF (c) EXIT / CYCLE / RETURN / "
+RULE = ("programs = every statement sequence (<=3 top-level statements plus the "
+        "label, bodies <=2, loop depth <=2, IF nesting <=1 around guarded transfers) over {assignment, DO loop, IF (c) EXIT / CYCLE / RETURN / "
         "GOTO 10, 10 CONTINUE before (backward) or after (forward) the GOTO in any "
         "enclosing sequence, IF-THEN[-ELSE]} up to the size bound in bounds(); "
         "elements = program x every consecutive statement range of every sequence "
@@ -54,7 +54,7 @@ ASSUMPTIONS = [
 
 # size bounds: (max program size, max size of programs with a GOTO)
 TIERS = {
-    "quick": {"single": (3, 3), "pair": (2, 3), "batch": 100},
+    "quick": {"single": (3, 3), "pair": (2, 2), "batch": 100},
     "thorough": {"single": (4, 4), "pair": (3, 3), "batch": 100},
 }
 N3_PATH_CAP = 64
@@ -153,10 +153,13 @@ def cases(tier):
     if group:
         yield {"key": f"s{group[0]:05d}-{group[-1]:05d}", "mode": "single",
                "progs": group}
+    ncfg = sum(len(names) for _, _, names in PAIR_CONFIGS[tier])
     for idx, (_key, prog) in enumerate(_programs(tier, "pair")):
-        for first in range(len(P.ranges(prog))):
+        nrng = len(P.ranges(prog))
+        chunk = max(1, -(-GROUP_ELEMENTS // (nrng * ncfg)))
+        for first in range(0, nrng, chunk):
             yield {"key": f"p{idx:05d}.{first:02d}", "mode": "pair", "prog": idx,
-                   "first": first}
+                   "first": first, "stop": min(nrng, first + chunk)}
 
 
 def elements(case, tier):
@@ -172,13 +175,13 @@ def elements(case, tier):
     else:
         pkey, prog = _programs(tier, "pair")[case["prog"]]
         rngs = P.ranges(prog)
-        first = rngs[case["first"]]
-        for second in rngs:
-            for tn1, tn2, namecfgs in PAIR_CONFIGS[tier]:
-                for cfg in namecfgs:
-                    yield pkey, prog, [
-                        {"t": tn1, "r": first, "nm": NAMECFG[cfg[0]]},
-                        {"t": tn2, "r": second, "nm": NAMECFG[cfg[1]]}]
+        for first in rngs[case["first"]:case["stop"]]:
+            for second in rngs:
+                for tn1, tn2, namecfgs in PAIR_CONFIGS[tier]:
+                    for cfg in namecfgs:
+                        yield pkey, prog, [
+                            {"t": tn1, "r": first, "nm": NAMECFG[cfg[0]]},
+                            {"t": tn2, "r": second, "nm": NAMECFG[cfg[1]]}]
 
 
 def element_key(pkey, regions):
@@ -205,7 +208,31 @@ def init_worker(tier):
     _TIER = tier
     from psyclone.configuration import Config
     Config.get()
+    _memoise_parser_factory()
     os.chdir(_root())
+
+
+def _memoise_parser_factory():
+    """PSyDataNode lowering calls fparser's ParserFactory().create(std="f2008")
+    for every generated CALL (6 ms each, up to 14 per region).  create() only
+    (re)builds fparser's class tables for the requested standard, so calling
+    it again with the standard that is already active is a no-op apart from
+    the time: skip exactly those repeated calls."""
+    from fparser.two.parser import ParserFactory
+    if getattr(ParserFactory.create, "_c28_memo", False):
+        return
+    orig = ParserFactory.create
+    state = {}
+
+    def create(self, std=None):
+        if "std" in state and state["std"] == std:
+            return state["result"]
+        result = orig(self, std)
+        state["std"], state["result"] = std, result
+        return result
+
+    create._c28_memo = True
+    ParserFactory.create = create
 
 
 def _refusal_class(text):
@@ -220,29 +247,25 @@ def _refusal_class(text):
     return "refused:other"
 
 
-def _signature(prog, regions, failure, blame):
+def _signature(prog, regions, regs, failure, blame, inp):
     """Mechanism-level signature: transformation of the region that is not
-    entered/left properly, the kinds of control transfer inside its range that
-    can bypass its start/end (computed from the mini-AST -- used for the
-    signature only, never for the verdict), and the failure class of the
-    first failing input.  `blame` is the (module, region) name the trace
-    judge holds responsible; with two regions the explicitly named ones are
-    told apart by that name, otherwise the first region (in application
-    order) with a bypassing transfer is taken."""
-    pool = [r for r in regions
-            if r.get("nm") and R.EXPLICIT[r["nm"]] == tuple(blame)]
-    if not pool:
-        pool = [r for r in regions if not r.get("nm")] or regions
-    chosen = None
-    for reg in pool:
-        esc = P.escapes(prog, reg["r"])
-        if esc:
-            chosen = (reg, esc)
-            break
-    if chosen is None:
-        chosen = (pool[0], [])
-    reg, esc = chosen
-    return f"{reg['t']}:{'+'.join(esc) if esc else 'no-escape'}:{failure}"
+    entered/left properly, the kind of the first control transfer that, on the
+    failing input, bypasses the end (or start) of that region's statement
+    range -- determined by the generator's reference interpreter, used for the
+    signature only, never for the verdict -- and the failure class.
+    `blame` is the (module, region) name the trace judge holds responsible;
+    PreStart call sites (`regs`, textual order) are matched to the requested
+    regions through the textual order of their ranges."""
+    order = P.textual_order([r["r"] for r in regions])
+    blamed = [regions[order[pos]] for pos, name in enumerate(regs)
+              if tuple(name) == tuple(blame)]
+    others = [r for r in regions if not any(r is b for b in blamed)]
+    for reg in blamed + others:
+        found = P.bypasses(prog, reg["r"], inp["n"], inp["bits"])
+        if found:
+            return f"{reg['t']}:{found[0]}:{failure}"
+    reg = (blamed or regions)[0]
+    return f"{reg['t']}:no-bypass:{failure}"
 
 
 def run_elements(elems, workdir, tier, want_text=False):
@@ -404,7 +427,7 @@ def _judge_element(elem, inputs, results, count, viol, stats):
     bad_here = False
     if first_bad is not None:
         inp, trace, (failure, blame, why) = first_bad
-        sig = _signature(prog, regions, failure, blame)
+        sig = _signature(prog, regions, regs, failure, blame, inp)
         viol.append({
             "key": elem["key"], "sig": sig,
             "msg": (f"program {elem['pkey']} with "
